@@ -20,6 +20,8 @@ Trace == ndJsonDeserialize(IOEnv.VERIF_TRACE)
 Soft == {"C19.right_maximal", "C19.left_maximal", "C19.run_literals",
          "C12.match_longest", "C12.literal_justified", "C11.cost_optimal"}
 
+MaxHard == 3   \* failing events recorded per trace before the rest is skipped
+
 VARIABLES l, st, ws, bad, tid
 vars == <<l, st, ws, bad, tid>>
 
@@ -54,7 +56,7 @@ TraceNext ==
           /\ st' = PInit(e.c)
           /\ ws' = WInit(e.c)
           /\ bad' = 0
-     ELSE IF bad # 0 \/ e.op = "end"
+     ELSE IF bad >= MaxHard \/ e.op = "end"
      THEN UNCHANGED <<tid, st, ws, bad>>
      ELSE LET why == Why(e) IN
           IF why \subseteq Soft
@@ -62,12 +64,19 @@ TraceNext ==
                   ELSE st' = PEff(st, e) /\ ws' = ws
                /\ UNCHANGED <<tid, bad>>
                /\ (why # {} => TLCSet(1, Append(TLCGet(1), [tid |-> tid, line |-> l, why |-> why])))
-          ELSE /\ bad' = l
-               /\ UNCHANGED <<tid, st, ws>>
+          ELSE \* a hard rule failed: record it; keep validating the rest of the
+               \* trace from the state the event claims, as long as that state is sane
                /\ TLCSet(1, Append(TLCGet(1), [tid |-> tid, line |-> l, why |-> why]))
+               /\ UNCHANGED tid
+               /\ IF bad + 1 < MaxHard /\ PStateOk(IF e.op \in WrapOps THEN st ELSE PEff(st, e))
+                        /\ WStateOk(IF e.op \in WrapOps THEN WEff(ws, e) ELSE ws)
+                     THEN /\ bad' = bad + 1
+                          /\ IF e.op \in WrapOps THEN ws' = WEff(ws, e) /\ st' = st
+                             ELSE st' = PEff(st, e) /\ ws' = ws
+                     ELSE bad' = MaxHard /\ UNCHANGED <<st, ws>>
 
 TraceSpec == TraceInit /\ [][TraceNext]_vars
-TraceInv == bad # 0 \/ (PStateOk(st) /\ WStateOk(ws))
+TraceInv == bad >= MaxHard \/ (PStateOk(st) /\ WStateOk(ws))
 
 Post ==
   /\ PrintT(<<"VERIF_BAD", ToJson(TLCGet(1))>>)
